@@ -324,6 +324,10 @@ def run(ctx):
     run_primitives(ctx, enums)
     run_quantum(ctx)
     run_fixed_witnesses(ctx)
+    # date-time and time are element types too (property C10 names them): their converters are exercised by
+    # the date-time module; violations are recorded under C10 with that module's tags
+    from corr import C09 as _dt
+    _dt.run(ctx)
 
 
 def oracle_read(ctx, conv, meta, kind, ireq, s, r, warned, case, enums):
@@ -413,6 +417,7 @@ def oracle_write(ctx, conv, meta, kind, v, r, warned, case):
 
 
 # ------------------------------------------------------------------ the Python primitives the model re-implements
+
 def run_primitives(ctx, enums):
     from xml.sax import saxutils
     from xml.etree.ElementTree import _escape_cdata
